@@ -9,6 +9,12 @@
 use specs::prelude::*;
 use specs::world::EntitiesRes;
 use std::collections::{BTreeMap, BTreeSet};
+use specs::hibitset::BitSetLike;
+
+/// component attached to every entity the harness creates: carries the position of its owner in `issued`
+#[derive(Debug, Clone, Copy, PartialEq)]
+struct Tag(usize);
+impl Component for Tag { type Storage = VecStorage<Self>; }
 
 #[derive(Clone, Debug, PartialEq)]
 enum Op {
@@ -80,7 +86,9 @@ fn fail(prop: &str, which: &str, msg: String) -> Result<(), (String, String)> {
 
 impl Run {
     fn new() -> Run {
-        Run { world: World::new(), model: Model::default(), handles: vec![] }
+        let mut world = World::new();
+        world.register::<Tag>();
+        Run { world, model: Model::default(), handles: vec![] }
     }
 
     fn on_create(&mut self, prop: &str, e: Entity, visible: bool) -> Result<(), (String, String)> {
@@ -103,6 +111,17 @@ impl Run {
             fail(prop, "C17", format!("index {} handed out although at most {} entities were ever simultaneously not yet dead", e.id(), self.model.peak))?;
         }
         if visible { self.handles.push(pos); }
+        // C05: a newly created entity (also one reusing an index) has no component until one is inserted
+        {
+            let mut st = self.world.write_storage::<Tag>();
+            if st.mask().contains(e.id()) {
+                let got = st.get(e).cloned();
+                drop(st);
+                fail(prop, "C05", format!("new entity {:?} already has a component {:?} (raw mask has its index)", e, got))?;
+            } else {
+                st.insert(e, Tag(pos)).map_err(|_| ("C02".to_string(), format!("insert for fresh entity {:?} refused", e)))?;
+            }
+        }
         Ok(())
     }
 
@@ -123,6 +142,23 @@ impl Run {
         drop(ents);
         if joined != want {
             return fail(prop, "C02", format!("entities join yields {:?}, timeline says {:?}", joined, want));
+        }
+        // C05: the storage holds a component exactly for the entities that are not yet dead, each its own
+        let st = self.world.read_storage::<Tag>();
+        let have: BTreeSet<u32> = st.mask().iter().collect();
+        let want_idx: BTreeSet<u32> = self.model.alive.iter().map(|&p| self.model.issued[p].id()).collect();
+        if have != want_idx {
+            let msg = format!("storage mask holds indices {:?} but the not-yet-dead entities are at {:?}", have, want_idx);
+            drop(st);
+            return fail(prop, "C05", msg);
+        }
+        for &p in &self.model.alive {
+            let e = self.model.issued[p];
+            if st.get(e) != Some(&Tag(p)) {
+                let msg = format!("entity {:?} reads component {:?}, expected its own Tag({})", e, st.get(e), p);
+                drop(st);
+                return fail(prop, "C05", msg);
+            }
         }
         Ok(())
     }
